@@ -658,7 +658,7 @@ func c10Replay(pl json.RawMessage) (string, []core.Violation) {
 func init() {
 	core.Register(&core.PropSpec{
 		ID: "C10", Level: "exploration",
-		Rule:     "ALL byte strings of length 0..n (n=5 quick, 6 thorough) over the 26-byte alphabet {a 1 0 x e . + - = ! < & | / \" ' ` \\ SP LF CR TAB ( { 0xC3 NUL} (one byte per lexer branch), each tokenised until end-of-input was returned 3 times, checked by a span-consistency oracle (positions inside the source, literal = source slice, gaps only white space/comments, no overlap, keyword classification, operator/identifier maximal munch, after-newline <=> LF in gap, stable end-of-input at len(src)); plus all sequences of <=3 (thorough: 4) of 63 well-formed lexeme fragments x all separator combinations compared token-by-token with an independent tokenizer. Every enumerated input is distinct; all are counted as non-trivial because each exercises the cursor/position bookkeeping (the empty input included once)",
+		Rule:     "ALL byte strings of length 0..n (n=5 quick, 6 thorough) over the 26-byte alphabet {a 1 0 x e . + - = ! < & | / \" ' ` \\ SP LF CR TAB ( { 0xC3 NUL} (one byte per lexer branch), each tokenised until end-of-input was returned 3 times, checked by a span-consistency oracle (positions inside the source, literal = source slice, gaps only white space/comments, no overlap, keyword classification, operator/identifier maximal munch, after-newline <=> LF in gap, stable end-of-input at len(src)); plus all sequences of <=3 (thorough: 4) of 63 well-formed lexeme fragments x all separator combinations compared token-by-token with an independent tokenizer. Every enumerated input is distinct; all are counted as non-trivial because each exercises the cursor/position bookkeeping (the empty input included once) Added families: 26 multi-byte chunks (byte order mark, UTF-8 sequences, long and truncated escapes) at the start / middle / end of every byte string of length <= 2; string literals made of every pair of the 61 literal fragments (both quotes) followed by a token, compared with the independent tokenizer; every code point of U+2000..U+203F and one per UTF-8 length in comments, strings, templates and identifiers; the scale family.",
 		Assume:   []string{"line model: LF ends a line; a lone CR in a gap is don't-care for the after-newline flag (property does not define it)", "columns are byte columns", "position base calibrated on the token of the input \"a\""},
 		QuickSec: 300, ThorSec: 1800, Run: c10Run, Replay: c10Replay,
 		Evals: "inputs", Nontriv: "nontrivial_inputs",
